@@ -662,6 +662,16 @@ class ScenGen:
         names = {'ert': ['ev%d' % i for i in range(r.randrange(1, 3))], 'dst': ['ds%d' % i for i in range(r.randrange(1, 3))],
                  'clk': ['clk%d' % i for i in range(r.randrange(1, 3))]}
         skel = self.skeleton(names)
+        if r.random() < 0.3:
+            # a user file named like a packaged standard file: the user inclusion directories are searched BEFORE the
+            # package's one (include.adoc), so this copy - with other alignments - is the one the skeleton includes
+            std = copy.deepcopy(pkg_files(self.major)['stdint.yaml'])
+            ak, al = ('$field-type-aliases', 'alignment') if self.v3 else ('type-aliases', 'align')
+            for k, v in std[ak].items():
+                if type(v) is OD and al in v:
+                    v[al] = 64 if v[al] != 64 else 8
+            self.dirs[r.randrange(len(self.dirs))][1]['stdint.yaml'] = std
+            self.stats['user-file-shadows-packaged-stdint'] += 1
         top = 'trace' if self.v3 else 'metadata'
         patch = OD([(top, self.with_include(top, 0, names))])
         holder = patch[top].get('type') if self.v3 else patch[top]
@@ -849,10 +859,27 @@ class ScenGen:
 def write_scenario(s, path):
     os.makedirs(path, exist_ok=True)
     dirs = []
-    for did, files in s['dirs']:
+    for di, (did, files) in enumerate(s['dirs']):
         d = os.path.join(path, did)
         os.makedirs(d, exist_ok=True)
-        dirs.append(d)
+        # the SAME directory under another spelling (non-canonical path, symbolic link, relative to the working
+        # directory of the worker): inclusion must not depend on how a directory is spelled
+        sp = s.get('dir_spelling', ['canon'] * len(s['dirs']))[di]
+        if sp == 'dot':
+            dirs.append(os.path.join(path, '.', did, '.'))
+        elif sp == 'dotdot':
+            dirs.append(os.path.join(path, did, '..', did))
+        elif sp == 'slashes':
+            dirs.append(path + '//' + did + '/')
+        elif sp == 'symlink':
+            ln = os.path.join(path, 'ln_' + did)
+            if not os.path.lexists(ln):
+                os.symlink(did, ln)
+            dirs.append(ln)
+        elif sp == 'relative':
+            dirs.append(os.path.join('REL', did))     # resolved by the worker: chdir(path)
+        else:
+            dirs.append(d)
         for fn, tree in files.items():
             fp = os.path.join(d, fn)
             os.makedirs(os.path.dirname(fp), exist_ok=True)
@@ -872,6 +899,9 @@ def real_effective(args):
     cfg, dirs = args
     import bt  # noqa: F401  (forces /repo)
     import barectf
+    if any(d.startswith('REL' + os.sep) for d in dirs):
+        os.chdir(os.path.dirname(cfg))
+        dirs = [d[4:] if d.startswith('REL' + os.sep) else d for d in dirs]
     try:
         with open(cfg) as f:
             return 'ok', barectf.effective_configuration_file(f, True, dirs)
@@ -925,6 +955,9 @@ def run(ctx):
             if tag == 'flat_doc':
                 s['opened'] = list(m.opened)
         path = os.path.join(ctx.scratch, 'e2e', '%04d' % i)
+        if 'dir_spelling' not in s:
+            s['dir_spelling'] = [ctx.rng.choice(['canon', 'canon', 'dot', 'dotdot', 'slashes', 'symlink', 'relative']) for _ in s['dirs']]
+            stats['dir-spelling:' + '+'.join(sorted(set(s['dir_spelling'])))] += 1
         dirs = write_scenario(s, path)
         s['path'] = path
         jobs.append((os.path.join(path, 'config.yaml'), dirs))
@@ -942,7 +975,7 @@ def run(ctx):
         real = res[os.path.join(s['path'], 'config.yaml')]
         replay = {'scenario': kind, 'major_version': s['major'],
                   'config.yaml': s.get('raw_root') or dump(s['root'], v3root=s['major'] == 3),
-                  'inclusion_directories': [d for d, _ in s['dirs']],
+                  'inclusion_directories': [d for d, _ in s['dirs']], 'directory_spelling': s.get('dir_spelling'),
                   'files': {'%s/%s' % (d, fn): (s.get('raw_files', {}).get((d, fn)) or dump(t)) for d, fs in s['dirs'] for fn, t in fs.items()}}
         if real[0] == 'crash':
             stats['real:crash'] += 1
